@@ -261,6 +261,20 @@ fn run(ctx: &RunCtx) -> Report {
     }
     let acked = ackers(&sim, writer, &target, t_put, &net.servers);
     report.probe("ackers", acked.len() as u64);
+    // announce_peer, 1 run in 3 (own random stream): a *roommate* - a second client behind the writer's IP
+    // (another UDP port: a second client on one host, or the neighbour behind one NAT) announces itself for the
+    // same info hash after the writer did. The writer's own endpoint stays announced.
+    let mut xrng = Rng::new(crate::rng::key(ctx.seed, &[crate::rng::tag("c01-roommate-inflight")]));
+    if kind == 2 && !large && xrng.chance(1, 3) {
+        let mut rs = NodeSpec::new(writer_ip, 6890);
+        rs.bootstrap = vec![sim.node_addr(net.first).to_string()];
+        let mate = sim.add_node(rs);
+        let b = sim.bootstrapped(mate);
+        sim.run_ops(&[b], sim.now() + 60 * SEC);
+        let o = sim.announce_peer(mate, info_hash, if xrng.chance(1, 2) { Some(xrng.range(1, 65535) as u16) } else { None });
+        sim.run_ops(&[o], sim.now() + 120 * SEC);
+        report.probe("roommate_announcers_behind_the_writers_ip", 1);
+    }
 
     // crash set
     let crash_mode = if warm { 6 } else { rng.below(6) };
@@ -389,6 +403,20 @@ fn run(ctx: &RunCtx) -> Report {
                 pre_ops.push(get(&sim, *reader, &other));
                 sim.run_for(rng.range(0, 400) * MS);
             }
+            3 => {
+                // a PUT for the same key in flight on the reader (the get joins the put's lookup): a stale copy
+                // of the mutable item (lower seq, other value), the same immutable value, or the reader's
+                // own announcement for the info hash
+                let mine = match &stored {
+                    Stored::Immutable(v) => Stored::Immutable(v.clone()),
+                    Stored::Mutable { key_seed, salt, seq, .. } => Stored::Mutable { key_seed: *key_seed, salt: salt.clone(), seq: seq.saturating_sub(1 + xrng.below(3) as i64), value: b"a stale copy held by the reader".to_vec() },
+                    Stored::Peer { info_hash, .. } => Stored::Peer { info_hash: *info_hash, port: Some(4555) },
+                    Stored::Signed { info_hash, .. } => Stored::Signed { info_hash: *info_hash, key_seed: [0x5a; 32] },
+                };
+                let _ = put(&sim, *reader, &mine);
+                sim.run_for(xrng.range(0, 300) * MS);
+                report.probe("reader_has_a_put_for_the_key_in_flight", 1);
+            }
             _ => {}
         }
         let op = get(&sim, *reader, &stored);
@@ -434,6 +462,7 @@ fn run(ctx: &RunCtx) -> Report {
                 2 if kind >= 2 => "not-found-while-other-kind-lookup-in-flight-on-same-target",
                 _ if both_announces => "two-announce-kinds-at-once-one-lost",
                 1 => "not-found-while-same-lookup-in-flight",
+                3 => "not-found-while-own-put-for-the-key-in-flight",
                 _ => "stored-value-not-found",
             };
             report.violate(
